@@ -395,7 +395,165 @@ def fam_random(cfg, tier, rng):
         out.append(steps)
     return out
 
+def usable_after(cfg, vids):
+    """continued use after a fault: push, read, clear, drop"""
+    post = []
+    for v in vids:
+        post += ["push e %d w" % v, "iter ref %d FFFFFF" % v, "pop e %d down" % v]
+    for v in vids:
+        post += ["clear e %d" % v, "push t %d w" % v, "dropvec %d" % v]
+    return post
+
+def fuse_ops(cfg, n, other_len):
+    """operation instances that call user code (element Drop / Clone, replacement next)"""
+    ops = []
+    mid = n // 2
+    for a in "et":
+        ops.append("clear %s 0" % a)
+        if n > 0:
+            ops += ["remove %s 0 %d %s" % (a, mid, "drop" if a == "e" else "down"),
+                    "swap_remove %s 0 0 %s" % (a, "drop" if a == "e" else "down"),
+                    "pop %s 0 %s" % (a, "drop" if a == "e" else "down")]
+        for s in range(0, n + 1):
+            for e in range(s, n + 1):
+                if e - s > 3:
+                    continue
+                ops.append("drain %s 0 i%d x%d - drop" % (a, s, e))
+                if e > s:
+                    ops.append("drain %s 0 i%d x%d F%s drop" % (a, s, e, "drop" if a == "e" else "down"))
+                    ops.append("drain %s 0 i%d x%d B%s,Fdown drop" % (a, s, e, "drop" if a == "e" else "down"))
+                for rn in (0, 1, 2, 3):
+                    ops.append("splice %s 0 i%d x%d - drop w %d - %d" % (a, s, e, rn, rn))
+                    if a == "e":
+                        ops.append("splice e 0 i%d x%d - drop box %d - %d" % (s, e, rn, rn))
+                        if cloneable(cfg) and other_len > 0 and rn > 0:
+                            ops.append("splice e 0 i%d x%d - drop lz:1 %d - %d" % (s, e, rn, rn))
+    if cloneable(cfg):
+        ops.append("clone 0 2")
+        if other_len > 0:
+            ops.append("push e 0 lz:1:1:0")
+            ops.append("push e 0 lz:2:1:%d" % (other_len - 1))
+            for i in range(0, n + 1):
+                ops.append("insert e 0 %d lz:1:1:0" % i)
+        if n > 0:
+            ops += ["remove e 0 %d lz:2:1+drop" % mid, "pop e 0 lz:1:1+push:1", "drain e 0 u u Flz:2:1+drop drop"]
+    ops.append("dropvec 0")
+    return ops
+
+def fam_fuse(cfg, tier, rng):
+    """C06: every k-th invocation of user code inside an operation panics."""
+    if not cfg["dg"] and not cloneable(cfg):
+        return []
+    L = 3 if tier == "quick" else 4
+    K = 5 if tier == "quick" else 9
+    out = []
+    other_len = max_len(cfg, 2)
+    for n in range(0, max_len(cfg, L) + 1):
+        pre = prefix(cfg, [n, other_len])
+        for op in fuse_ops(cfg, n, other_len):
+            for k in range(0, K):
+                post = usable_after(cfg, [1] if op.startswith("dropvec") else [0, 1])
+                if op.startswith("clone"):
+                    post = ["iter ref 0 FFFF"] + post
+                out.append(pre + ["fuse=%d %s" % (k, op)] + post)
+    return out
+
+def fam_liar(cfg, tier, rng):
+    """C06: replacement iterators whose len() is off by -2..=+2 (with and without a fuse)."""
+    L = 3 if tier == "quick" else 4
+    out = []
+    other_len = max_len(cfg, 2)
+    cap = fixed_cap(cfg["be"], cfg["sz"])
+    for n in range(0, max_len(cfg, L) + 1):
+        pre = prefix(cfg, [n, other_len])
+        for s in range(0, n + 1):
+            for e in range(s, n + 1):
+                for rn in range(0, 4):
+                    for d in (-2, -1, 1, 2):
+                        cl = rn + d
+                        if cl < 0:
+                            continue
+                        kinds = [("e", "w"), ("e", "box"), ("t", "w")]
+                        if cloneable(cfg) and other_len > 0:
+                            kinds.append(("e", "lz:1"))
+                        for a, rk in kinds:
+                            for pat in ("-", "Fdown", "Bdown"):
+                                if pat != "-" and e == s:
+                                    continue
+                                out.append(pre + ["splice %s 0 i%d x%d %s drop %s %d - %d" % (a, s, e, pat, rk, rn, cl)]
+                                           + usable_after(cfg, [0, 1]))
+    return out
+
+def fam_forget(cfg, tier, rng):
+    """C07: forget a removal handle, a range iterator at every stage, or a yielded item."""
+    L = 3 if tier == "quick" else 5
+    out = []
+    other_len = max_len(cfg, 2)
+    for n in range(0, max_len(cfg, L) + 1):
+        pre = prefix(cfg, [n, other_len])
+        post = usable_after(cfg, [0, 1])
+        ops = []
+        for i in range(0, n + 1):
+            ops += ["remove e 0 %d forget" % i, "swap_remove e 0 %d forget" % i, "remove e 0 %d mut+forget" % i]
+            if cloneable(cfg):
+                ops.append("remove e 0 %d lz:1:1+forget" % i)
+        ops.append("pop e 0 forget")
+        for s in range(0, n + 1):
+            for e in range(s, n + 1):
+                k = e - s
+                pats = ["-"]
+                for f in range(0, k + 1):
+                    for b in range(0, k + 1 - f):
+                        if f + b == 0 or f + b > 3:
+                            continue
+                        pats.append(",".join(["Fdown"] * f + ["Bdown"] * b))
+                        pats.append(",".join(["Fforget"] * f + ["Bdrop"] * b))
+                for p in pats:
+                    for a in "et":
+                        if a == "t" and "drop" in p:
+                            continue
+                        ops.append("drain %s 0 i%d x%d %s forget" % (a, s, e, p))
+                        ops.append("splice %s 0 i%d x%d %s forget w 2 - 2" % (a, s, e, p))
+                        if "forget" in p:
+                            ops.append("drain %s 0 i%d x%d %s drop" % (a, s, e, p))
+        for op in ops:
+            out.append(pre + [op] + post)
+    return out
+
+def fam_lazy(cfg, tier, rng):
+    """C09: lazy clones of every cloneable source kind x consumption kind x depth x count."""
+    if not cloneable(cfg):
+        return []
+    L = 2 if tier == "quick" else 3
+    out = []
+    other_len = max_len(cfg, 2)
+    for n in range(1, max_len(cfg, L) + 1):
+        pre = prefix(cfg, [other_len, n, 0])   # consumer 0, source 1, spare 2
+        post = ["iter ref 0 FFFFFF", "iter ref 1 FFFFFF", "dropvec 0", "dropvec 1", "dropvec 2"]
+        for d in (1, 2, 3):
+            for i in range(0, n):
+                # source = element reference
+                out.append(pre + ["push e 0 lz:%d:1:%d" % (d, i)] + post)
+                out.append(pre + ["insert e 0 0 lz:%d:1:%d" % (d, i)] + post)
+                out.append(pre + ["push e 0 lz:%d:1:%d" % (d, i), "push e 2 lz:%d:1:%d" % (d, i), "insert e 0 1 lz:%d:1:%d" % (d, i)] + post)
+        for cnt in (0, 1, 2, 3):
+            for i in range(0, n):
+                # source = removal handle (then dropped / moved / forgotten), drained element
+                for fin in ("drop", "down", "push:2"):
+                    out.append(pre + ["remove e 1 %d lz:%d:0+%s" % (i, cnt, fin)] + post)
+                    out.append(pre + ["swap_remove e 1 %d lz:%d:0+%s" % (i, cnt, fin)] + post)
+                out.append(pre + ["pop e 1 lz:%d:0+drop" % cnt] + post)
+                out.append(pre + ["drain e 1 i%d x%d Flz:%d:0+drop drop" % (i, i + 1, cnt)] + post)
+                out.append(pre + ["drain e 1 u u Blz:%d:0+push:2 drop" % cnt] + post)
+            out.append(pre + ["splice e 0 i0 x0 - drop lz:1 %d - %d" % (cnt, cnt)] + post)
+            out.append(pre + ["splice e 0 u u Fdown drop lz:1 %d - %d" % (cnt, cnt)] + post)
+    return out
+
 FAMILIES = {
+    "fuse": fam_fuse,
+    "liar": fam_liar,
+    "forget": fam_forget,
+    "lazy": fam_lazy,
     "elem": fam_elem,
     "copy": fam_boundary_copy,
     "range": fam_range,
